@@ -126,7 +126,7 @@ claim("C08", "DESIGN.md 5 C08",
       "(ConstantTimeCompare is proved to be string equality for all lengths), unknown types and every error are refusals; Permissions.Permissions: a raw list is returned as is, a role yields exactly the role's list preceded by 'record' iff the group allows recording "
       "and the role contains op (and not record), and by 'token' iff the group has unrestricted tokens and the role contains present (and not token) - loop invariants over the role list, for every content of the role table; "
       "Description.GetPermission composes them: a password login succeeds iff getPasswordPermission admits and the name is valid, under the name given, with exactly those permissions; every refusal returns no name and no permission.",
-      "The pbkdf2 and bcrypt branches of Match are pinned to the primitives: a key or salt that is not hexadecimal is a refusal, the derived key is computed from THIS password with the record's salt, iteration count and key length and compared with the record's key, bcrypt compares the record's hash with this password, and the result is exactly the comparison's. "
+      "The pbkdf2 and bcrypt branches of Match are pinned to the primitives: a key or salt that is not hexadecimal is a refusal, the derived key is computed from THIS password with the record's salt, iteration count and key length and compared with the record's key, bcrypt compares the record's hash with this password, and the result is exactly the comparison's; a pbkdf2 record with an EMPTY key matches nothing (it matched every password: repaired). "
       "Stored records: \"password\": null is read as no password (it was read as the empty plain password, which matched: repaired), and a record is written in the compact form only if it is plain AND has a key (a keyless plain record became null, i.e. - before the repair - the empty password). "
       "Assumed: hex/pbkdf2/bcrypt primitives (external, effect-free), Password.Match deterministic (declared pure), validGroupName pure (C19), encoding/json. "
       "Not decided: that pbkdf2/bcrypt hashes produced by galenectl verify for the right password and no other (cryptographic; only the plaintext and wildcard types are decided), "
